@@ -9,5 +9,12 @@ wt=/tmp/rt_${pre}_${id}
 rm -rf $wt; git -C /repo worktree add -q $wt HEAD || exit 2
 git -C $wt apply $patch || { echo "patch does not apply at HEAD"; git -C /repo worktree remove --force $wt; exit 2; }
 /verif/tools/mutrun.sh $wt rt_${pre}_${id} $chk 2>&1 | grep -E "VIOLATION|INFRA|KNOWN" | cut -c1-220
+python3 - <<EOF
+import json,glob
+for f in sorted(glob.glob('/tmp/mh_rt_${pre}_${id}/evidence/replay/*.json')):
+    try:
+        r=json.load(open(f)); print('  replay', f.split('/')[-1], r.get('kind'), str(r.get('what') or r.get('first_divergence',{}).get('what') or r.get('problems'))[:300])
+    except Exception as e: print('  replay', f, e)
+EOF
 rm -rf /tmp/mh_rt_${pre}_${id}
 git -C /repo worktree remove --force $wt; git -C /repo worktree prune
